@@ -43,6 +43,9 @@ type Case struct {
 	// Sched (session mode): "p1" runs Execute under GOMAXPROCS(1), i.e. the schedule in which the
 	// dispatch loop finishes before any batch goroutine starts (the model is schedule-independent)
 	Sched string `json:"sched,omitempty"`
+	// Fail (modes batches / hashes): per position how many times the executed-status lookup of that
+	// proposal fails before the chain answers (absent = no lookup is scripted to fail)
+	Fail []int `json:"fail,omitempty"`
 }
 
 type BatchObs struct {
@@ -57,7 +60,40 @@ type Obs struct {
 	Batches  []BatchObs `json:"batches"`
 	Sessions []SessObs  `json:"sessions,omitempty"`
 	Hashed   [][]uint64 `json:"hashed,omitempty"`
-	Note     string     `json:"note,omitempty"`
+	// BatErr: proposalBatches returned an error; ExecErr: Execute did (hashes mode)
+	BatErr  bool   `json:"bat_err,omitempty"`
+	ExecErr bool   `json:"exec_err,omitempty"`
+	Note    string `json:"note,omitempty"`
+}
+
+// failBridge makes the executed-status lookup of chosen proposals fail the first k times it is asked
+// (per proposal, keyed by deposit nonce = position); everything else is the wrapped bridge.
+type failBridge struct {
+	evmexec.BridgeContract
+	mu   sync.Mutex
+	left map[uint64]int
+}
+
+func withFailures(b evmexec.BridgeContract, fail []int) evmexec.BridgeContract {
+	if len(fail) == 0 {
+		return b
+	}
+	fb := &failBridge{BridgeContract: b, left: map[uint64]int{}}
+	for i, k := range fail {
+		fb.left[uint64(i)] = k
+	}
+	return fb
+}
+
+func (b *failBridge) IsProposalExecuted(p *transfer.TransferProposal) (bool, error) {
+	b.mu.Lock()
+	if b.left[p.Data.DepositNonce] > 0 {
+		b.left[p.Data.DepositNonce]--
+		b.mu.Unlock()
+		return false, fk.ErrLookup
+	}
+	b.mu.Unlock()
+	return b.BridgeContract.IsProposalExecuted(p)
 }
 
 // hashRecBridge records what Execute hands to ProposalsHash and fails at once, so that a batch
@@ -196,6 +232,9 @@ func (g *gate) onUnsubscribe(id comm.SubscriptionID) {
 }
 
 func run(c Case) Obs {
+	if c.Mode == "session" {
+		c.Fail = nil // failing lookups are driven in the batches / hashes modes only
+	}
 	ps, chain := proposals(c)
 	host := fk.NewHost()
 	cm := &fk.Comm{}
@@ -204,12 +243,14 @@ func run(c Case) Obs {
 	coord.TssTimeout = time.Millisecond
 	coord.CoordinatorTimeout = time.Millisecond
 	coord.InitiatePeriod = time.Hour
-	ex := evmexec.NewExecutor(host, cm, coord, fk.EvmBridge{Chain: chain}, fetcher, &sync.RWMutex{}, c.Cap, c.Tg)
+	ex := evmexec.NewExecutor(host, cm, coord, withFailures(fk.EvmBridge{Chain: chain}, c.Fail), fetcher, &sync.RWMutex{}, c.Cap, c.Tg)
 
 	var o Obs
 	batches, err := ex.VerifProposalBatches(ps)
 	if err != nil {
-		panic("C14 runner: proposalBatches failed without a scripted lookup error: " + err.Error())
+		// reported, nothing produced (the judge accepts this only when a lookup was scripted to fail)
+		o.BatErr = true
+		batches = nil
 	}
 	signed := 0
 	sig := &tsscommon.SignatureData{R: []byte{1}, S: []byte{2}, SignatureRecovery: []byte{0}}
@@ -233,12 +274,13 @@ func run(c Case) Obs {
 	}
 	if c.Mode == "hashes" {
 		rb := &hashRecBridge{EvmBridge: fk.EvmBridge{Chain: chain}}
-		ex2 := evmexec.NewExecutor(host, cm, coord, rb, fetcher, &sync.RWMutex{}, c.Cap, c.Tg)
+		ex2 := evmexec.NewExecutor(host, cm, coord, withFailures(rb, c.Fail), fetcher, &sync.RWMutex{}, c.Cap, c.Tg)
 		old := runtime.GOMAXPROCS(1)
 		done := make(chan error, 1)
 		go func() { done <- ex2.Execute(ps) }()
 		select {
-		case <-done:
+		case e := <-done:
+			o.ExecErr = e != nil
 		case <-time.After(120 * time.Second):
 			panic("C14 runner: Executor.Execute did not return")
 		}
@@ -417,6 +459,61 @@ func gen(r *vgen.Rng, tier string) []Case {
 		out = append(out, sc)
 		out = append(out, Case{Mode: "hashes", Mid: sc.Mid, Cap: cap, Tg: tg, Props: ps})
 	}
+	// 6. executed-status lookups that fail: at every position of a delivery, 1 or 2 times (the lookup
+	// of a pending or of an executed proposal), through proposalBatches and through the real Execute
+	for n := 1; n <= 5; n++ {
+		for pos := 0; pos < n; pos++ {
+			for k := 1; k <= 2; k++ {
+				// executed: none | the proposal whose lookup fails | its successor
+				for variant := 0; variant < 3; variant++ {
+					ps := make([]Prop, n)
+					for j := range ps {
+						if j%3 == 2 {
+							ps[j].HasLimit, ps[j].Limit = true, uint64(40*j)
+						}
+					}
+					switch variant {
+					case 1:
+						ps[pos].Executed = true
+					case 2:
+						ps[(pos+1)%n].Executed = true
+					}
+					fail := make([]int, n)
+					fail[pos] = k
+					cap := []uint64{250, 1000}[(pos+k+variant)%2]
+					for _, mode := range []string{"batches", "hashes"} {
+						out = append(out, Case{Mode: mode, Mid: "m", Cap: cap, Tg: 100, Props: ps, Fail: fail})
+					}
+				}
+			}
+		}
+	}
+	nfail := 90
+	if tier == "thorough" {
+		nfail = 2500
+	}
+	for i := 0; i < nfail; i++ {
+		tg := uint64(100)
+		cap := vgen.Pick(r, []uint64{90, 150, 250, 350, 1000})
+		n := r.Range(1, 8)
+		ps := make([]Prop, n)
+		fail := make([]int, n)
+		for j := range ps {
+			if r.Chance(1, 4) {
+				ps[j] = Prop{HasLimit: true, Limit: uint64(r.Intn(300))}
+			}
+			ps[j].Executed = r.Chance(1, 5)
+		}
+		// 0 (scripted, none fails), 1 or 2 failing positions
+		for f := r.Intn(3); f > 0; f-- {
+			fail[r.Intn(n)] = r.Range(1, 2)
+		}
+		mode := "batches"
+		if r.Bool() {
+			mode = "hashes"
+		}
+		out = append(out, Case{Mode: mode, Mid: vgen.Pick(r, mids), Cap: cap, Tg: tg, Props: ps, Fail: fail})
+	}
 	return out
 }
 
@@ -441,6 +538,30 @@ func coqBatches(bs []BatchObs) string {
 }
 
 func coq(c Case, o Obs) string {
+	hashed := func() string {
+		return vgen.ListOf(o.Hashed, func(m []uint64) string { return vgen.ListOf(m, vgen.N) })
+	}
+	if len(c.Fail) > 0 && c.Mode != "session" {
+		fl := make([]uint64, len(c.Props))
+		for i := range fl {
+			if i < len(c.Fail) && c.Fail[i] > 0 {
+				fl[i] = uint64(c.Fail[i])
+			}
+		}
+		res := "None"
+		if !o.BatErr {
+			res = vgen.Some(coqBatches(o.Batches))
+		}
+		head := n64(c.Cap) + " " + n64(c.Tg) + " " + coqProps(c.Props) + " " + vgen.ListOf(fl, vgen.N) + " " + res
+		if c.Mode == "hashes" {
+			return "HshF " + head + " " + vgen.Bool(o.ExecErr) + " " + hashed()
+		}
+		return "BatF " + head
+	}
+	if o.BatErr {
+		// an error although no lookup was scripted to fail: judged as "nothing produced"
+		return "BatF " + n64(c.Cap) + " " + n64(c.Tg) + " " + coqProps(c.Props) + " [] None"
+	}
 	head := n64(c.Cap) + " " + n64(c.Tg) + " " + coqProps(c.Props) + " " + coqBatches(o.Batches)
 	if c.Mode == "hashes" {
 		return "Hsh " + head + " " + vgen.ListOf(o.Hashed, func(m []uint64) string { return vgen.ListOf(m, vgen.N) })
@@ -476,10 +597,13 @@ func main() {
 			if c.Mode == "session" {
 				return "session"
 			}
+			if len(c.Fail) > 0 {
+				return "lookup-fails"
+			}
 			return "batches"
 		},
 		NonTrivial: func(c Case, o Obs) bool { return pending(c) >= 2 },
-		Rule: "every executed mask for n<=6, a boundary grid (k equal allowances summing to cap-2..cap+2), random lists of 0..12 proposals with limits absent/0/small/around cap/huge and caps around the transfer gas, uint64 wrap-around lists, and deliveries driven through the real Executor.Execute + tss.Coordinator for the session ids; distinct = distinct input JSON; non-trivial = at least two proposals still need execution",
+		Rule: "every executed mask for n<=6, a boundary grid (k equal allowances summing to cap-2..cap+2), random lists of 0..12 proposals with limits absent/0/small/around cap/huge and caps around the transfer gas, uint64 wrap-around lists, deliveries driven through the real Executor.Execute + tss.Coordinator for the session ids, and deliveries with executed-status lookups scripted to fail (every position of 1..5 proposals, 1 or 2 times, plus random ones) through proposalBatches and Execute; distinct = distinct input JSON; non-trivial = at least two proposals still need execution",
 		ShardSize: 400,
 	})
 }
